@@ -246,6 +246,87 @@ fn run_real_full(files: &[(String, String)], defs: &[(String, String)]) -> (Obse
     (o, flat)
 }
 
+fn pct(s: &str) -> String {
+    let mut o = String::new();
+    for c in s.chars() {
+        match c {
+            '%' => o.push_str("%25"),
+            ' ' => o.push_str("%20"),
+            '\t' => o.push_str("%09"),
+            '\n' => o.push_str("%0A"),
+            '\r' => o.push_str("%0D"),
+            c => o.push(c),
+        }
+    }
+    o
+}
+
+/// the token stream the real lexer produces for one text, in the model's spelling; `X` = the lexer fails
+/// here.  With `directives` the `inside_include` lexing mode is switched as `preprocess_included_file` does.
+fn model_tokens(text: &str, trailing_endline: bool, directives: bool) -> String {
+    use rssl_text::tokens::{FollowedBy, Token};
+    let r = guard(|| {
+        let mut sm = rssl_text::SourceManager::new();
+        let (fid, loc) = sm.add_fragment(text);
+        let contents = sm.get_contents(fid).to_string();
+        let ts = rssl_preprocess::verif::TokenStream::new(&contents, loc);
+        let mut ts = if trailing_endline { ts } else { ts.suppress_trailing_endline() };
+        let mut out: Vec<String> = Vec::new();
+        // 0 start of line, 1 command start, 2 command contents, 3 normal contents
+        let mut state = 0u8;
+        let mut inside_include = false;
+        while !ts.end_of_stream() {
+            let tok = match ts.next(inside_include && directives) {
+                Ok(t) => t,
+                Err(_) => {
+                    out.push("X".into());
+                    break;
+                }
+            };
+            let sp = rssl_preprocess::unlex(std::slice::from_ref(&tok), &sm);
+            let ws = tok.0.is_whitespace();
+            match (&tok.0, state) {
+                (Token::Endline, _) => {
+                    state = 0;
+                    inside_include = false;
+                }
+                (Token::Hash, 0) => state = 1,
+                (t, 1) if !ws => {
+                    state = 2;
+                    if let Token::Id(id) = t {
+                        if id.0 == "include" {
+                            inside_include = true;
+                        }
+                    }
+                }
+                (_, 0) => {
+                    if !ws {
+                        state = 3;
+                    }
+                }
+                _ => {}
+            }
+            out.push(match &tok.0 {
+                Token::Id(id) => format!("i{}", id.0),
+                Token::LiteralInt(_) | Token::LiteralIntUnsigned32(_) => format!("n{}", sp),
+                Token::LeftParen => "(".into(),
+                Token::RightParen => ")".into(),
+                Token::Comma => ",".into(),
+                Token::Endline => "E".into(),
+                Token::Whitespace | Token::Comment | Token::PhysicalEndline => "w".into(),
+                Token::HashHash => "##".into(),
+                Token::LeftAngleBracket(FollowedBy::Token) => "p<~".into(),
+                Token::LeftAngleBracket(FollowedBy::Whitespace) => "p<".into(),
+                Token::RightAngleBracket(FollowedBy::Token) => "p>~".into(),
+                Token::RightAngleBracket(FollowedBy::Whitespace) => "p>".into(),
+                _ => format!("p{}", pct(&sp)),
+            });
+        }
+        out.join(" ")
+    });
+    r.unwrap_or_else(|_| "X".into())
+}
+
 /// does a known divergence in a skipped group explain this error variant?
 fn explained_by_hint(hints: &std::collections::BTreeSet<&'static str>, v: &str) -> Option<&'static str> {
     if v == "LexerError" && hints.contains("unlexable-in-skipped") {
@@ -778,6 +859,15 @@ fn do_request(line: &str, out: &mut Out, st: &mut Stats) {
             out.case(line, &observation, &oracle);
         }
         ["C11.raw", defs, rest @ ..] if !rest.is_empty() => {
+            // fields from `@toks` on are derived (the lexer's token streams, for the model): recomputed here
+            let rest: &[&str] = match rest.iter().position(|x| *x == "@toks") {
+                Some(k) => &rest[..k],
+                None => rest,
+            };
+            if rest.is_empty() {
+                out.case(line, "bad-request", "SKIP:bad request");
+                return;
+            }
             let Some(defs) = parse_defs(defs) else {
                 out.case(line, "bad-request", "SKIP:bad request");
                 return;
@@ -813,7 +903,16 @@ fn do_request(line: &str, out: &mut Out, st: &mut Stats) {
                 raw::Expected::Skip(w) => format!("raw-skip:{}", w.split(':').next().unwrap_or("")),
             });
             st.raw_verdict.add(oracle.split(' ').next().unwrap_or("").split('(').next().unwrap_or(""));
-            out.case(line, &show_observed(&obs), &oracle);
+            let mut echo: Vec<String> = vec!["C11.raw".to_string(), f[1].to_string()];
+            echo.extend(rest.iter().map(|x| x.to_string()));
+            echo.push("@toks".into());
+            for (n, v) in &defs {
+                echo.push(format!("D {}", model_tokens(&format!("{} {}", n, v), false, false)));
+            }
+            for (n, t) in &files {
+                echo.push(format!("F {} {}", n, model_tokens(t, true, true)));
+            }
+            out.case(&echo.join("\t"), &show_observed(&obs), &oracle);
         }
         _ => out.case(line, "bad-request", "SKIP:bad request"),
     }
